@@ -7,12 +7,47 @@ PROP = "C03"
 BACKEND = "jit"
 DUMP = ("bc", 11, False)
 PROPS_FILE = "C03.v"
-COUNTS_QUICK = {"uniform": 120, "macro": 250, "pressure": 300, "affine": 120, "bigconst": 80, "roam": 40, "diverge": 10}
-COUNTS_THOROUGH = {"uniform": 2000, "macro": 8000, "pressure": 8000, "affine": 3000, "bigconst": 1500, "roam": 600, "diverge": 100}
+COUNTS_QUICK = {"squares": 120, "iopressure": 120, "uniform": 120, "macro": 250, "pressure": 300, "affine": 120, "bigconst": 80, "roam": 40, "diverge": 10}
+COUNTS_THOROUGH = {"squares": 3000, "iopressure": 3000, "uniform": 2000, "macro": 8000, "pressure": 8000, "affine": 3000, "bigconst": 1500, "roam": 600, "diverge": 100}
 LEVELS_QUICK = [0, 1, 2, 3]
 LEVELS_THOROUGH = [0, 1, 2, 3]
 PROFILES = ("debug",)
 SMALL_EXHAUSTIVE = 5
+
+
+HUGE = ["+" + "[>++++++++++++++++<-]>" * k + tail for k in (8,) for tail in ("[>>+.>]+.", "[>>+.>]<<[>+<-]>[>>-.>]+.", ">+<[>-<[>>+.>]]>[+.>]+.")]
+
+
+def extra(res, cases, hv, driver):
+    """values beyond 32 bits are only reachable by long runs (16^8 = 2^32 takes 3e8 canonical steps), too
+    long for the extracted oracle: here the release in-place interpreter (property C04) is the reference"""
+    from .. import common as C
+    from .. import pipeline as P
+    hvr = C.build_harness("release")
+    envt = P.env_text()
+    ref = C.run_lines(hvr, ["run|inplace|%d|0|exec|0|60000|%s|%s" % (w, P.hexs(src), envt) for src in HUGE for w in (32, 64)])
+    lines, meta = [], []
+    i = 0
+    for src in HUGE:
+        for w in (32, 64):
+            for backend in ("jit", "bc", "ir"):
+                for level in (0, 2):
+                    if backend == "ir" and level == 0:
+                        continue
+                    lines.append("run|%s|%d|%d|exec|0|60000|%s|%s" % (backend, w, level, P.hexs(src), envt))
+                    meta.append((src, w, backend, level, ref[i]))
+            i += 1
+    out = C.run_lines(hvr, lines)
+    bad = 0
+    for (src, w, backend, level, r), o, l in zip(meta, out, lines):
+        if not r.startswith("ok "):
+            raise C.CheckFailure("reference in-place run failed: " + r[:100])
+        if o != r:
+            bad += 1
+            if bad <= 2:
+                res.violation("backend %s level %d width %d differs from the in-place interpreter on a program reaching values >= 2^28/2^32: %r: got %s want %s" % (backend, level, w, src, o[:80], r[:80]),
+                              {"case": {"src": src, "w": w, "env": envt, "canonical": "done 1 " + r.split(" ", 2)[2]}, "backend": backend, "level": level, "profile": "release", "implementation": o})
+    return {"huge_constant_runs": len(lines), "huge_constant_disagreements": bad}
 
 
 def run(res):
